@@ -83,7 +83,7 @@ fn main() {
         }
         None => props::run(&ctx),
     });
-    let mut rep = match result {
+    let rep = match result {
         Ok(Some(r)) => r,
         Ok(None) => {
             println!("INCONCLUSIVE property={} unknown property or replay not supported", prop);
@@ -95,90 +95,6 @@ fn main() {
         }
     };
 
-    // Split violations: own property / other properties (NOTE only) ; match known findings.
-    let known = load_known(&verif_dir);
-    let mut own: Vec<Violation> = vec![];
-    let mut known_hits: Vec<String> = vec![];
-    let all = std::mem::take(&mut rep.violations);
-    for v in all {
-        if v.prop != prop {
-            println!("NOTE: discrepancy tagged {} seen while checking {} ({}): {}", v.prop, prop, v.signature, v.summary);
-            continue;
-        }
-        if let Some(k) = known.iter().find(|k| k.prop == v.prop && k.signature == v.signature) {
-            let line = format!("KNOWN-FINDING: property={} {} [{}]", v.prop, k.text, k.signature);
-            if !known_hits.contains(&line) {
-                known_hits.push(line);
-            }
-        } else {
-            own.push(v);
-        }
-    }
-    for l in &known_hits {
-        println!("{}", l);
-    }
-
-    let mut exit = 0;
-    if !own.is_empty() && replay.is_none() {
-        let dir = verif_dir.join("replays");
-        let _ = std::fs::create_dir_all(&dir);
-        for (i, v) in own.iter().enumerate() {
-            let path = dir.join(format!("{}-{}-{}.json", prop, seed, i));
-            let doc = json!({
-                "property": v.prop,
-                "signature": v.signature,
-                "summary": v.summary,
-                "seed": seed,
-                "tier": tier.name(),
-                "witness": v.witness,
-            });
-            let _ = std::fs::write(&path, serde_json::to_string_pretty(&doc).unwrap());
-            println!("VIOLATION property={} replay={}", prop, path.display());
-            println!("  signature: {}", v.signature);
-            println!("  {}", v.summary);
-        }
-        exit = 1;
-    } else if !own.is_empty() {
-        for v in &own {
-            println!("VIOLATION property={} replay={}", prop, replay.as_ref().unwrap().display());
-            println!("  signature: {}", v.signature);
-            println!("  {}", v.summary);
-        }
-        exit = 1;
-    }
-
-    if replay.is_none() {
-        let ev = evidence_json(&ctx, &rep, own.len(), &known_hits);
-        let dir = verif_dir.join("evidence");
-        let _ = std::fs::create_dir_all(&dir);
-        let path = dir.join(format!("{}.json", prop));
-        std::fs::write(&path, serde_json::to_string_pretty(&ev).unwrap()).expect("write evidence");
-    }
-
-    if exit == 0 && !rep.inconclusive.is_empty() {
-        for m in &rep.inconclusive {
-            println!("INCONCLUSIVE property={} {}", prop, m);
-        }
-        exit = 2;
-    }
-    println!(
-        "{} {} {} seed={} evaluations={} distinct_nontrivial={} wall={:.1}s",
-        match exit {
-            0 => "HELD",
-            1 => "VIOLATED",
-            _ => "INCONCLUSIVE",
-        },
-        prop,
-        tier.name(),
-        seed,
-        rep.evaluations,
-        rep.fingerprints.len(),
-        start.elapsed().as_secs_f64()
-    );
-    let mut keys: Vec<_> = rep.counters.iter().filter(|(k, _)| !k.starts_with("violations_raw/")).collect();
-    keys.sort();
-    for (k, v) in keys.iter().take(60) {
-        println!("  observed {:<60} {}", k, v);
-    }
+    let exit = conclude(&ctx, rep, replay.as_deref());
     std::process::exit(exit);
 }
